@@ -33,6 +33,7 @@ func checkC09(c *Ctx) {
 		c09Globals(c, p, m)
 		c02Pool(c, p, m)
 		c08Stores(c, p, m)
+		pooledObjectsFresh(c, p, "R08.1")
 	}
 	c.Floor["R09.1"] = 60
 	c.Floor["R09.3"] = 10
